@@ -281,6 +281,8 @@ def run(ctx):
                 "position of every buffer <= 3 / 4 over those characters plus random longer ones, validated against FoLex.tla. One run of the real binary each, "
                 "time-out 20 s. distinct = distinct (arguments, contents); non-trivial = input differs from an unmodified program")
     r = ctx.tlc("FoDriverMC", "FoDriver_mc.cfg", workers=2, timeout=1800)
+    # unbounded: the inductive invariant of the driver machine, for every argument list (TLA+ proof system)
+    ctx.extra["tlaps_obligations_proved_FoDriverProof"] = ctx.tlapm("FoDriverProof")
     fc = ctx.build("fc")
     lex = scanner_layer(ctx)
     if lex is not None:
